@@ -12,9 +12,14 @@ from asyncio import events as _aevents
 
 
 class VLoop(asyncio.BaseEventLoop):
+    _inside = 0
+    _eager = False
+
     def __init__(self, eager=True):
         super().__init__()
         self._vtime = 1000.0
+        self._inside = 0  # >0 while callbacks / environment actions execute
+        self._eager = eager
         self.exc_log: list = []
         self.set_exception_handler(self._on_exc)
         if eager:
@@ -24,6 +29,11 @@ class VLoop(asyncio.BaseEventLoop):
     # -- BaseEventLoop plumbing ------------------------------------------------
     def time(self):
         return self._vtime
+
+    def is_running(self):
+        # Task.__init__ only starts a task eagerly when the loop reports itself running; without this the
+        # eager task factory (which production uses, see Master.run) would silently be deferred.
+        return self._eager and self._inside > 0
 
     def _process_events(self, event_list):
         pass
@@ -59,6 +69,7 @@ class VLoop(asyncio.BaseEventLoop):
         k = 0
         prev = _aevents._get_running_loop()
         _aevents._set_running_loop(self)
+        self._inside += 1
         try:
             while self._ready or self._due():
                 self.step()
@@ -66,6 +77,7 @@ class VLoop(asyncio.BaseEventLoop):
                 if k > limit:
                     raise RuntimeError("virtual loop does not quiesce (livelock)")
         finally:
+            self._inside -= 1
             _aevents._set_running_loop(prev)
         return k
 
@@ -73,9 +85,11 @@ class VLoop(asyncio.BaseEventLoop):
         """run fn as if from inside the loop (needed for eager task creation)"""
         prev = _aevents._get_running_loop()
         _aevents._set_running_loop(self)
+        self._inside += 1
         try:
             return fn(*a)
         finally:
+            self._inside -= 1
             _aevents._set_running_loop(prev)
 
     def next_timer(self):
